@@ -81,8 +81,32 @@ def convert(path, idx):
     return out, None
 
 
+def convert_verdicts(d, out_path):
+    """verdicts-*.ndjson (hook H4) -> events for TraceVerdict.tla; returns (events, accepted, too long)"""
+    n = acc = skipped = 0
+    seen = set()
+    with open(out_path, "w") as fh:
+        for f in sorted(os.listdir(d)):
+            if not f.startswith("verdicts-"):
+                continue
+            for line in open(os.path.join(d, f)):
+                e = json.loads(line)
+                if e["len"] != len(e["prog"]):
+                    skipped += 1
+                    continue
+                key = (bytes(e["prog"]), e["ok"])
+                if key in seen:
+                    continue
+                seen.add(key)
+                whole = e["prog"][:len(e["prog"]) - len(e["prog"]) % 8]
+                fh.write(json.dumps({"prog": segs(whole), "nbytes": e["len"], "accept": e["ok"], "msg": e["msg"]}, separators=(",", ":")) + "\n")
+                n += 1
+                acc += 1 if e["ok"] else 0
+    return n, acc, skipped
+
+
 def convert_dir(d, out_prefix, chunks=4):
-    files = sorted(os.listdir(d))
+    files = sorted(f for f in os.listdir(d) if not f.startswith("verdicts-"))
     aside = {}
     runs = []
     for idx, f in enumerate(files):
